@@ -1,11 +1,19 @@
 (* C01 -- Upload then download returns every file byte-for-byte.  Statements only.
-   PARTIAL in this revision: the theorems below are the parts of the round-trip argument that are proved; the central
-   invariant ("the file record resolves, against store + pending data, to exactly the fed chunk sequence, across cuts,
-   merges with shifted indices and the swap branch") is stated in DESIGN.md and exercised by both correspondence layers
-   (stream dd: exact; stream sess: end to end with downloads of whole files and ranges), but not yet proved in Coq. *)
+   The central invariant is proved in Proofs/ResolveProofs.v: at every point of FileDeduper::process_chunks the file's
+   segment list resolves -- against the store F plus the file's pending data under the zero hash -- to exactly the chunks
+   fed so far; it survives xorb cuts, local and global dedup answers, fragmentation-prevention rejections, the aggregator's
+   merge with shifted indices, the swap branch of register_single_file_clean_completion and the final patching of
+   self-references.  [resolve_file F segs] is the model of LocalClient::get_file at the level of chunk identities; the step
+   from chunk identities to bytes is the xorb round trip (C07) and the term slicing (C17).
+   Assumed, explicitly (StoreOk): no two xorbs of the store share a hash with different contents, no non-empty xorb hashes
+   to all zeroes, the 64-bit lookup keys of distinct chunks differ, chunks are non-empty; and the data interface answers
+   only with xorbs of the store (TableOk).  The model keys the deduper's local lookup by the first 8 bytes of the chunk hash
+   where the code keys its HashMap by the whole hash; under the key hypothesis of StoreOk the two agree (the generated
+   chunk identities of streams dd and sess have distinct first 8 bytes).  The end-to-end checks of streams sess and dd
+   exercise the same facts on the real crates. *)
 From Coq Require Import NArith Bool List.
 Import ListNotations.
-From XetModel Require Import Base.Codec Gen.ShardLayout Gen.DedupFacts Model.Merkle Model.Shard Model.Dedup Proofs.PipelineProofs.
+From XetModel Require Import Base.Codec Gen.ShardLayout Gen.DedupFacts Model.Merkle Model.Shard Model.Dedup Proofs.PipelineProofs Proofs.ResolveProofs.
 Open Scope N_scope.
 
 (* the deduper records exactly the fed chunks (so the file hash and the verification data describe the fed stream) *)
@@ -17,4 +25,38 @@ Theorem C01_xorbs_within_limits_partial : forall bbd cf f chunks answers, cfg_ok
   fd_ok cf (process_chunks bbd cf f chunks answers).
 Proof. exact process_chunks_limits. Qed.
 
+
+(* a file fed in any number of process_chunks calls: its segment list resolves to exactly the chunks fed (and records which
+   segments still point into the pending data, with every lookup entry pointing at the chunk it names) *)
+Theorem C01_file_record_resolves : forall F U, StoreOk F U -> forall bbd cf ext R blocks,
+  TableOk F ext -> (forall b c, In b blocks -> In c b -> In c U) ->
+  (forall x, In x (f_registered (feed_blocks bbd cf ext (fd_with_registered R) blocks)) -> In x F) ->
+  FInv F U (feed_blocks bbd cf ext (fd_with_registered R) blocks) (concat blocks).
+Proof. exact file_resolves. Qed.
+Theorem C01_invariant_gives_resolution : forall F U f fed, FInv F U f fed -> resolve_file (pend (f_new f) :: F) (f_info f) = Some fed.
+Proof. intros F U f fed H. exact (fi_res F U f fed H). Qed.
+(* FileDeduper::finalize hands the session a well-formed completion *)
+Theorem C01_finalize_hands_over : forall F U, StoreOk F U -> forall f fed salt sha,
+  FInv F U f fed -> op_ok F U (OpFile (snd (fst (fst (fd_finalize f salt sha)))) (snd (fst (fd_finalize f salt sha))) (fst (fst (fst (fd_finalize f salt sha))), fed)).
+Proof. exact file_op_ok. Qed.
+(* a whole session -- completions and mid-file xorb registrations in any order, then finalize: every completed file has a
+   record in the session shard that resolves in the store to exactly its chunks, every record in the shard is one of those,
+   and nothing stays behind in the aggregator *)
+Theorem C01_session_records_resolve : forall F U, StoreOk F U -> forall rc cf ops, Forall (op_ok F U) ops ->
+  (forall x, In x (s_uploaded (srun rc cf ops)) -> In x F) ->
+  (forall g, In g (ghosts ops) -> DoneRec F (s_shard_files (srun rc cf ops)) g)
+  /\ DoneAll F (s_shard_files (srun rc cf ops)) (ghosts ops)
+  /\ a_files (s_cur (srun rc cf ops)) = [].
+Proof. exact session_resolves. Qed.
+(* the premises hold on a run with internal deduplication (two segments, the second a self-reference) *)
+Example C01_premises_satisfiable :
+  StoreOk ex_F ex_U /\
+  DoneRec ex_F (s_shard_files (srun true ex_cfg2 ex_ops)) (fst (fst (fst ex_fin)), [ex_c1; ex_c2; ex_c1]) /\ length (f_info ex_file) = 2%nat.
+Proof. exact (conj ex_StoreOk ex_session_resolves). Qed.
+
 Print Assumptions C01_fed_chunks_recorded_partial.
+Print Assumptions C01_file_record_resolves.
+Print Assumptions C01_invariant_gives_resolution.
+Print Assumptions C01_finalize_hands_over.
+Print Assumptions C01_session_records_resolve.
+Print Assumptions C01_premises_satisfiable.
